@@ -341,8 +341,50 @@ def run(rep, progs, tier):
                     rep.check(norm(full) in allowed and not (info["derived"] and tr != "core::cmp::Eq"),
                               "C20.key-function", "%s/impl %s for %s" % (cfg, norm(full), ty.rsplit("::", 1)[-1]), ty,
                               "unexpected or derived comparison/hash impl %s for %s" % (full, ty))
+        comparators_rule(rep, prog, cfg)
         # charset
         charset_rule(rep, prog, cfg)
+
+
+def comparators_rule(rep, prog, cfg, rule="C20.key-function"):
+    TAG = "mpd_client::tag::Tag"
+    SUB = "mpd_client::client::Subsystem"
+    """Equality of tags / subsystems by anything but the name is a second, disagreeing notion of "the same tag": a catch-all value
+    holding a known name is the named variant for `==`, maps and sets, but has another discriminant.  So (i) `mem::discriminant`
+    is never taken of a Tag or Subsystem, and (ii) every function of the crate (outside the comparison trait impls decided above)
+    that takes two tags / subsystems and answers with a bool compares them through `==` of the type or through `as_str` of both."""
+    n_fns = 0
+    for b in prog.bodies.values():
+        if b.crate != "mpd_client" or b.raw.get("derived"):
+            continue
+        for bb, t in b.calls():
+            f = callee(t)
+            if f is None or not norm(f["name"]).endswith("core::mem::discriminant"):
+                continue
+            ga = [norm(a).lstrip("&").strip() for a in f.get("args", [])]
+            if any(a in (TAG, SUB) for a in ga):
+                root = prog.bodies.get(b.root, b)
+                rep.fail(rule, "%s/%s takes the discriminant of a %s" % (cfg, norm(root.name), ga[0].rsplit("::", 1)[-1]), b.loc(b.blocks[bb]["ts"]),
+                         "mem::discriminant of a %s in %s: two values with the same protocol name (a catch-all value and the named variant) have different "
+                         "discriminants, so whatever is decided here disagrees with `==`, hashing and ordering by name" % (ga[0].rsplit("::", 1)[-1], norm(root.name)))
+    for b in prog.bodies.values():
+        if b.crate != "mpd_client" or b.kind not in ("Fn", "AssocFn") or b.raw.get("derived") or b.local_ty(0) != "bool":
+            continue
+        if b.impl and b.impl.get("trait_name"):
+            continue        # trait impls (PartialEq, ...) are decided by the key-function rule proper
+        tys = [b.local_ty(i).replace("&", "").replace("'_ ", "").strip() for i in range(1, b.mir["argc"] + 1)]
+        for ty in (TAG, SUB):
+            if sum(1 for x in tys if x == ty) < 2:
+                continue
+            n_fns += 1
+            names = [n for _, t in b.calls() for n in callee_names(t)]
+            as_strs = sum(1 for n in names if n == ty + "::as_str")
+            eqs = [t for _, t in b.calls() if any(n in ("core::cmp::PartialEq::eq", "core::cmp::PartialEq::ne") for n in callee_names(t))
+                   and (callee(t) or {}).get("args") and norm((callee(t) or {}).get("args")[0]).lstrip("&").strip() == ty]
+            rep.check(as_strs >= 2 or bool(eqs), rule, "%s/%s compares by name" % (cfg, norm(b.name)), b.loc(b.span),
+                      "%s answers whether two %ss are the same without going through `==` of the type or `as_str` of both: it can disagree with equality by protocol name"
+                      % (norm(b.name), ty.rsplit("::", 1)[-1]))
+    rep.count("two_tag_predicates", n_fns)
 
 
 def fallback_verbatim(rep, rule, inst, body, adt_suffix, catch_all, param, prog=None):
